@@ -305,12 +305,15 @@ func init() {
 				continue
 			}
 			okLeaf := false
-			for _, b := range f.Blocks {
-				for _, in := range b.Instrs {
-					if st, ok := in.(*ssa.Store); ok && regexp.MustCompile(`^make\(\[\]\[\]byte,len\(txs\)\)\[(.*)\]$`).MatchString(w.expr(st.Addr)) {
-						idx := regexp.MustCompile(`^make\(\[\]\[\]byte,len\(txs\)\)\[(.*)\]$`).FindStringSubmatch(w.expr(st.Addr))[1]
-						okLeaf = w.expr(st.Val) == "txs["+idx+"].Hash()"
-					}
+			// the leaves are filled in the function itself or in a helper it shares with its sibling
+			for _, di := range w.deepInstrs(f, 1) {
+				st, ok := di.in.(*ssa.Store)
+				if !ok {
+					continue
+				}
+				addr := w.exprWith(st.Addr, di.sub)
+				if m := regexp.MustCompile(`^make\(\[\]\[\]byte,len\(txs\)\)\[(.*)\]$`).FindStringSubmatch(addr); m != nil {
+					okLeaf = w.exprWith(st.Val, di.sub) == "txs["+m[1]+"].Hash()"
 				}
 			}
 			c.Check(okLeaf, "types."+name+" leaves are tx.Hash() at the tx's own position", w.pos(f.Pos()), "leaf i = txs[i].Hash()", "leaves are not txs[i].Hash() at position i")
